@@ -365,12 +365,22 @@ class Union:
         self.__args__ = self.types = types
 
     def codegen(self):
-        from .dependent import combine, generate_checking_code
+        from .dependent import CodeGen, combine, generate_checking_code
+
+        def guarded(t):
+            # The check of a dependent member is only meaningful for
+            # instances of its bound (other members may have other bounds)
+            cg = generate_checking_code(t)
+            bound = getattr(t, "bound", None)
+            if bound is None:
+                return cg
+            return CodeGen(
+                "(isinstance({arg}, {member_bound}) and " + cg.template + ")",
+                {**cg.substitutions, "member_bound": bound},
+            )
 
         template = " or ".join("{}" for t in self.types)
-        return combine(
-            template, [generate_checking_code(t) for t in self.types]
-        )
+        return combine(template, [guarded(t) for t in self.types])
 
     def __type_order__(self, other):
         if other is Union:
